@@ -230,7 +230,8 @@ def run_check(prop, tier, explain=None):
     for rid, meta in rep.rules.items():
         fl = meta["floor"]
         n = len(rep.instances.get(rid, []))
-        if fl is not None and n < fl:
+        has_v = any(i["status"] == "violation" for i in rep.instances.get(rid, []))
+        if fl is not None and n < fl and not has_v:
             rep.violation(rid, "<floor>", "instances=%d<floor=%d" % (n, fl),
                           "rule %s matched %d instances, fewer than the %d confirmed by hand (fail closed)" % (rid, n, fl))
     known = [k for k in load_known() if k["property"] == prop]
